@@ -613,13 +613,17 @@ def _stream_cfgs(tier, what):
                     continue      # adiabatic_reaction is one function shared by all reaction classes; the sets differ only
                                   # in the isothermal call, which C06/isothermal covers; the other sets run in the thorough tier
             elif adia:
-                variants += [('wt', 'Q', 'lean', 'l')]
+                big = _n_rxns(prog) >= 3
+                if big and (tagged or prog['kind'] != 'system'):
+                    continue      # three reactions under the temperature solve: minutes per path, no new code path
+                if not tagged and not big: variants += [('wt', 'Q', 'lean', 'l')]
                 if single: variants += [('wt', 'P', 'lean', 'l'), ('mol', 'Q', 'lean', 'l'), ('mol', 'P', 'first-pos', 'l'), ('mol', 'P', 'maybe', 'l')]
                 if single and not tagged: variants += [('mol', 'P', 'lean', 'g')]
             else:
-                variants = [(b, k, f, 'l') for b in ('mol', 'wt') for k in ('P', 'Q') for f in ('lean', 'first-pos')]
-                variants += [('mol', 'P', 'maybe', 'l')]
-                if not tagged: variants += [('mol', 'P', 'lean', 'g'), ('wt', 'Q', 'first-pos', 'g')]
+                variants = [(b, k, 'lean', 'l') for b in ('mol', 'wt') for k in ('P', 'Q')]
+                if _n_rxns(prog) <= 2:
+                    variants += [('mol', 'P', 'first-pos', 'l'), ('wt', 'Q', 'first-pos', 'l'), ('mol', 'P', 'maybe', 'l')]
+                if not tagged: variants += [('mol', 'P', 'lean', 'g')]
             for basis, pkg, flows, phase in variants:
                 nm = (f'{"tagged" if tagged else "plain"};{pname};{basis};pkg={pkg};flows={flows}' + ('' if tagged else f';phase={phase}')
                       + (';fixed-nu' if fixed else ''))
@@ -738,7 +742,7 @@ def adia_configs(tier):
         if base and single:
             combos += [('Q', 1)] + ([('default', 0)] if not c['tagged'] or tier == 'thorough' else [])
             if tier == 'thorough': combos += [('default', 1)]
-        elif base and tier == 'thorough':
+        elif base and tier == 'thorough' and not c['tagged']:
             combos += [('Q', 1)]
         for q, fail in combos:
             out.append(dict(c, name=c['name'] + f';Q={q};fail={fail}', Q=q, fail=fail))
